@@ -11,6 +11,8 @@ source text of errors() (no pattern extraction): whatever way the checks are wri
   same-child     a node that lists one id twice (equal bounds):            rejected
   cycle          a node whose child carries the node's own id:             rejected
   cross-cycle    two sibling branches that refer to each other (B lists C's id, C lists B's id), and a ring of three: rejected
+  shadowed-dup   a node that lists a child twice, while another branch (earlier in the traversal) refers to that node's id
+                 as a plain variable with the same bounds:                 rejected
   fixed-cycle    a cycle closed through a reference with fixed bounds (1,1) equal to the own bounds of the node: rejected
   tree           pairwise distinct ids, any bounds / thresholds / signs:   accepted
   shared         one sub-proposition object under two parents:             accepted
@@ -53,7 +55,7 @@ class ErrorsShapeH(Harness):
     def cases(self):
         out = [{"shape": "dup-leaf"}, {"shape": "tree"}, {"shape": "shared"}, {"shape": "same-child"}, {"shape": "cycle"},
                {"shape": "dup-children"}, {"shape": "dup-own-bounds"}, {"shape": "cross-cycle"}, {"shape": "ring3"},
-               {"shape": "fixed-cycle"}]
+               {"shape": "fixed-cycle"}, {"shape": "shadowed-dup"}]
         for s1 in (1, -1):
             for s2 in (1, -1):
                 out.append({"shape": "dup-compound", "s1": s1, "s2": s2})
@@ -111,6 +113,13 @@ class ErrorsShapeH(Harness):
             R, _ = compound(c, repo, "R", [L("Q", "rq")[0], L("z", "z")[0]], -1, "R")
             T, _ = compound(c, repo, "T", [P, Q, R], 1, "T")
             st.update(top=T, accept=False, ids=None, n_occ=10)
+        elif sh == "shadowed-dup":
+            x1, lo1, hi1 = L("x", "a1")
+            x2 = mk_variable(repo, "x", lo1, hi1)
+            N, _ = compound(c, repo, "N", [x1, x2], 1, "N")
+            C, _ = compound(c, repo, "C", [L("N", "rn")[0], L("y", "y")[0]], 1, "C")
+            T, _ = compound(c, repo, "T", [C, N], 1, "T")
+            st.update(top=T, accept=False, ids=None, n_occ=7)
         elif sh == "fixed-cycle":
             back = mk_variable(repo, "T", 1, 1)
             C, _ = compound(c, repo, "C", [back, L("b", "b")[0]], 1, "C")
@@ -191,6 +200,8 @@ class ErrorsShapeH(Harness):
         elif sh == "ring3":
             T = C("T", [C("P", [L("R", "rr"), L("x", "x")], 1, "P"), C("Q", [L("P", "rp"), L("y", "y")], 1, "Q"),
                         C("R", [L("Q", "rq"), L("z", "z")], -1, "R")], 1, "T"); acc = False
+        elif sh == "shadowed-dup":
+            T = C("T", [C("C", [L("N", "rn"), L("y", "y")], 1, "C"), C("N", [L("x", "a1"), L("x", "a1")], 1, "N")], 1, "T"); acc = False
         elif sh == "fixed-cycle":
             T = C("T", [C("C", [puan.variable("T", (1, 1)), L("b", "b")], 1, "C")], 1, "T", own=(1, 1)); acc = False
         else:
